@@ -190,18 +190,38 @@ def ss_nonideal(rng):
     return "phreeqc.dat", t
 
 
+TIES_INPUT = 'RATES\n r_a\n -start\n 10 SAVE 0\n -end\n r_b\n -start\n 10 SAVE 0\n -end\n r_c\n -start\n 10 SAVE 0\n -end\nSOLUTION 1\n pH 7\n Na 1\n K 1\n Li 1\n Cl 2 charge\n Br 1\nEQUILIBRIUM_PHASES 1\n Fluorite 0 0\n Celestite 0 0\n Barite 0 0\n Gibbsite 0 0\n Quartz 0 10\n Gypsum 0 0\n Anhydrite 0 0\nKINETICS 1\n r_c\n -formula NaCl 1\n -m0 1\n r_a\n -formula KBr 1\n -m0 1\n r_b\n -formula LiCl 1 NaBr 1\n -m0 1\n -steps 10 in 2 steps\nGAS_PHASE 1\n -fixed_volume\n -volume 1\n N2(g) 1\n CO2(g) 0\n CH4(g) 0\n H2S(g) 0\nSOLID_SOLUTIONS 1\n Carb\n -comp Calcite 0\n -comp Strontianite 0\n -comp Rhodochrosite 0\n Sulf\n -comp Barite 0\n -comp Celestite 0\nEXCHANGE 1\n X 0.01\n -equilibrate 1\nSURFACE 1\n -equilibrate 1\n -diffuse_layer 1e-8\n Hfo_wOH 1e-4 600 0.1\n Hfo_sOH 1e-4\nSELECTED_OUTPUT 1\n -reset false\n -high_precision true\nUSER_PUNCH 1\n -headings aq ex surf s_s gas equi kin elements edl\n 10 k$ = "aq ex surf s_s gas equi kin elements"\n 20 DATA "aq", "ex", "surf", "s_s", "gas", "equi", "kin", "elements"\n 30 FOR c = 1 TO 8\n 40 READ k$\n 50 t = SYS(k$, n, nm$, ty$, mo)\n 60 o$ = ""\n 70 FOR i = 1 TO n\n 80 o$ = o$ + nm$(i) + ":" + ty$(i) + "|"\n 90 NEXT i\n 100 PUNCH o$\n 110 NEXT c\n 120 t = EDL_SPECIES("Hfo", n, nm$, mo, area, thick)\n 130 o$ = ""\n 140 FOR i = 1 TO n\n 150 o$ = o$ + nm$(i) + "|"\n 160 NEXT i\n 170 PUNCH o$\n 180 RESTORE 20\nUSER_PRINT\n 10 t = LIST_S_S("Carb", n, c$, mm)\n 20 FOR i = 1 TO n\n 30 PRINT "ss", c$(i), mm(i)\n 40 NEXT i\n 50 f$ = KINETICS_FORMULA$("r_b", n, e$, co)\n 60 FOR i = 1 TO n\n 70 PRINT "kf", e$(i), co(i)\n 80 NEXT i\n 90 f$ = PHASE_FORMULA$("Gibbsite", n, e$, co)\n 100 FOR i = 1 TO n\n 110 PRINT "pf", e$(i), co(i)\n 120 NEXT i\n 130 f$ = SPECIES_FORMULA$("NaX", n, e$, co)\n 140 FOR i = 1 TO n\n 150 PRINT "sf", e$(i), co(i)\n 160 NEXT i\n 170 t = SYS("equi", n, nm$, ty$, mo)\n 180 FOR i = 1 TO n\n 190 PRINT "equi", nm$(i), mo(i)\n 200 NEXT i\nEND\n'
+
+
+def sys_ties(rng):
+    """output that exposes the ORDER of equal-keyed items: BASIC SYS(...) for every category ("aq", "ex", "surf", "s_s", "gas",
+    "equi", "kin", "elements"), EDL_SPECIES, LIST_S_S, KINETICS_FORMULA$, PHASE_FORMULA$, SPECIES_FORMULA$ on a system with
+    bit-identical amounts in several categories (six EQUILIBRIUM_PHASES at 0 mol, three gases at 0, five solid-solution
+    components at the floor amount, three kinetic reactants at 1 mol with zero rates). The amounts that are varied do not
+    break the ties. The fixed job of the exploration is sys_ties(None)."""
+    t = TIES_INPUT
+    if rng is not None:
+        t = t.replace(" Quartz 0 10\n", " Quartz 0 %d\n" % rng.randint(2, 30)).replace(" X 0.01\n", " X %.3g\n" % rng.uniform(0.005, 0.05))
+        t = t.replace(" pH 7\n", " pH %.2f\n" % rng.uniform(6, 8))
+    return "phreeqc.dat", t
+
+
+def fixed_tie_job():
+    return ("sys_ties",) + sys_ties(None)
+
+
 FAMILIES = [("speciation", speciation), ("exchange_surface", exchange_surface), ("gas", gas),
             ("kinetics_rk", lambda r: kinetics(r, False)), ("kinetics_cvode", lambda r: kinetics(r, True)),
             ("transport", lambda r: transport(r, False)), ("advection", advection), ("inverse", inverse), ("basic", basic),
             ("pitzer", pitzer), ("solid_solution", solid_solution), ("dump_store", dump_store), ("isotopes", isotopes),
             ("sit", sit), ("llnl", llnl), ("cd_music", cd_music), ("kinetics_db_rate", kinetics_rates_db),
             ("diffuse_layer", diffuse_layer), ("donnan", donnan), ("pitzer_etheta", pitzer_etheta), ("gas_pr", gas_pr),
-            ("ss_nonideal", ss_nonideal)]
+            ("ss_nonideal", ss_nonideal), ("sys_ties", sys_ties)]
 
 # engine paths that are rarely used and keep scratch state of their own between calls (integrator estimates, cached function
 # arguments, solver work arrays): a burst runs SEVERAL jobs of ONE such family on several threads at the same time, so that a
 # piece of that state turned process-wide is hit by two threads at once
-BURST_FAMILIES = ["diffuse_layer", "donnan", "cd_music", "pitzer_etheta", "sit", "kinetics_cvode", "inverse", "isotopes", "gas_pr",
+BURST_FAMILIES = ["diffuse_layer", "sys_ties", "donnan", "cd_music", "pitzer_etheta", "sit", "kinetics_cvode", "inverse", "isotopes", "gas_pr",
                   "ss_nonideal", "exchange_surface", "kinetics_rk"]
 
 
